@@ -5,7 +5,7 @@ UNITS = [
     U("C07.ec_pubkey_parse", ["C07"], H, "h_ec_pubkey_parse", replace=XO + ["secp256k1_ge_is_valid_var"], assumed=XO + ["secp256k1_ge_is_valid_var"],
       functions=["secp256k1_ec_pubkey_parse", "secp256k1_eckey_pubkey_parse", "secp256k1_fe_impl_set_b32_limit", "secp256k1_ge_set_xy", "secp256k1_pubkey_save", "secp256k1_ge_to_bytes", "secp256k1_ge_to_storage"],
       unwind=70, timeout=600, min_obl=100, replay=True, note="every inputlen 0..100, input object of exactly inputlen bytes"),
-    U("C07.ecdsa_s2c_opening_parse", ["C07"], H, "h_s2c_opening_parse", replace=XO, assumed=XO,
+    U("C07.ecdsa_s2c_opening_parse", ["C07"], H, "h_s2c_opening_parse", replace=XO + ["secp256k1_ge_is_valid_var"], assumed=XO + ["secp256k1_ge_is_valid_var"],
       functions=["secp256k1_ecdsa_s2c_opening_parse", "secp256k1_ec_pubkey_parse", "secp256k1_eckey_pubkey_parse"], unwind=70, timeout=600, min_obl=100, replay=True),
     U("C07.xonly_pubkey_parse", ["C07"], H, "h_xonly_pubkey_parse", replace=XO, assumed=XO,
       functions=["secp256k1_xonly_pubkey_parse", "secp256k1_xonly_pubkey_save", "secp256k1_fe_impl_set_b32_limit"], unwind=70, timeout=600, min_obl=100, replay=True),
